@@ -100,3 +100,64 @@ Definition builtin_plugin (e : env) (script : list answer) : plugin_t :=
     | OPanic => None
     | Out p2 err calls => Some (p2, err, true, calls)
     end.
+
+(* ------------------------------------------------------------------ the command line (driver.PProf)
+   `pprof [-symbolize=mode] [-buildid=id] [-add_comment=text] [executable] source`:
+   parseFlags (cli.go:96) takes the first of two or more positional arguments as the executable when
+   ObjTool.Open accepts it; locateBinaries (fetch.go:473) then makes it the file of Mapping[0] (the
+   main binary, after the fake mapping was added) and applies the build id override when Mapping[0]
+   has none; fetchProfiles appends the comment after symbolization.  Naming the executable touches
+   NOTHING else: in particular not the has-symbols flags. *)
+Record cliopts := { c_exec : string; c_buildid : string; c_comment : string }.
+
+Definition set_buildid (m : mapping) (b : string) : mapping :=
+  {| m_id := m_id m; m_start := m_start m; m_limit := m_limit m; m_offset := m_offset m; m_file := m_file m;
+     m_buildid := b; m_hasfn := m_hasfn m; m_hasfile := m_hasfile m; m_hasline := m_hasline m;
+     m_hasinline := m_hasinline m |}.
+
+Definition override_main (c : cliopts) (m : mapping) : mapping :=
+  let m1 := if str_empty (c_exec c) then m else set_file m (c_exec c) in
+  if negb (str_empty (c_buildid c)) && str_empty (m_buildid m1) then set_buildid m1 (c_buildid c) else m1.
+
+Definition cli_overrides (c : cliopts) (p : profile) : profile :=
+  match p_mapping p with
+  | m :: r => with_maps_locs p (override_main c m :: r) (p_location p)
+  | [] => p
+  end.
+
+Definition add_comment (c : cliopts) (p : profile) : profile :=
+  if str_empty (c_comment c) then p else
+  {| p_sampletype := p_sampletype p; p_defaultsampletype := p_defaultsampletype p; p_sample := p_sample p;
+     p_mapping := p_mapping p; p_location := p_location p; p_function := p_function p;
+     p_comments := (p_comments p ++ [c_comment c])%list;
+     p_docurl := p_docurl p; p_dropframes := p_dropframes p; p_keepframes := p_keepframes p;
+     p_timenanos := p_timenanos p; p_durationnanos := p_durationnanos p; p_periodtype := p_periodtype p;
+     p_period := p_period p |}.
+
+(* the profile as the command line presents it to symbolization *)
+Definition cli_input (c : cliopts) (p : profile) : profile := cli_overrides c (add_fake p).
+
+Definition fetch_cli (plug : plugin_t) (c : cliopts) (mode : string) (absurl : string -> bool) (src : string) (p : profile) : foutcome :=
+  match fetch_generic plug mode absurl src (cli_input c p) with
+  | FOut p3 calls => FOut (add_comment c p3) calls
+  | FErr calls => FErr calls
+  | FPanic => FPanic
+  end.
+
+(* what -traces -addresses prints, as far as symbolization is concerned: one block per sample with a
+   non-empty stack; per location one row per line (one row when it has none); every row but the last
+   of a location is marked (inline); a row of a named function shows that name *)
+Definition fn_name (p : profile) (id : Z) : string :=
+  match find_function p id with Some f => f_name f | None => EmptyString end.
+Definition loc_rows (p : profile) (lid : Z) : list (string * bool) :=
+  match find_location p lid with
+  | None => []
+  | Some l =>
+      match l_lines l with
+      | [] => [(EmptyString, false)]
+      | ls => let n := List.length ls in
+              map (fun e => (fn_name p (ln_fn (snd e)), negb (Nat.eqb (S (fst e)) n))) (combine (seq 0 n) ls)
+      end
+  end.
+Definition traces_view (p : profile) : list (list (string * bool)) :=
+  filter (fun t => negb (is_nil t)) (map (fun s => flat_map (loc_rows p) (s_loc s)) (p_sample p)).
